@@ -951,6 +951,40 @@ func (c *c13ctx) compileFaults(nTrees int) {
 			}
 		}
 	}
+	// unary `not` in front of a word that merely BEGINS with "in" (the lexer tries the two-word operator `not in` first
+	// and has to back out completely): the unknown word, and a later unknown name on the same line, keep their columns
+	for _, w := range []string{"inStock", "index", "info", "in_var", "inn", "in9", "inÜ", "int"} {
+		for _, tmpl := range []string{"not %s", "not  %s", "B and not %s", "B or\n  not   %s", "not %s.Foo", "not(%s)", "[not %s]", "not B and not    %s",
+			"not %s and zzz", "S + \"ü\" == S or not  %s"} {
+			src := fmt.Sprintf(tmpl, w)
+			idx := strings.Index(src, w)
+			p := c13posAt(src, utf8.RuneCountInString(src[:idx]))
+			k := c13case{Stream: "unknown-name", Fault: "unknown identifier beginning with `in` after unary not", Src: src, Typed: true, Opt: true, Line: p.line, Col: p.col, Hint: ""}
+			_, err := c.compile(src, true, true)
+			c.rep.hist("fault unknown-name: word beginning with in after not")
+			c.judge(k, err)
+			c.countDistinct(k)
+		}
+		// the word is known to a map environment; the fault is a later unknown name on the same line
+		for _, tmpl := range []string{"not %s and zzz", "not   %s or zzz", "true and\n not  %s and (zzz)", "not %s ? zzz : 1"} {
+			src := fmt.Sprintf(tmpl, w)
+			idx := strings.Index(src, "zzz")
+			p := c13posAt(src, utf8.RuneCountInString(src[:idx]))
+			k := c13case{Stream: "unknown-name", Fault: "unknown identifier after `not <word beginning with in>`", Src: src, Typed: true, Opt: true, Line: p.line, Col: p.col, Hint: ""}
+			var err error
+			func() {
+				defer func() {
+					if r := recover(); r != nil {
+						err = fmt.Errorf("panic: %v", r)
+					}
+				}()
+				_, err = expr.Compile(src, expr.Env(map[string]interface{}{w: true}))
+			}()
+			c.rep.hist("fault unknown-name: after not + word beginning with in")
+			c.judge(k, err)
+			c.countDistinct(k)
+		}
+	}
 	// the result directive must not hide the position of the first error (finding: checker.Check tests `expect` first)
 	for _, src := range []string{"unknown + 1", "I +\n  ünknown", "[1, 2][nope]", "not\tnope"} {
 		idx := -1
